@@ -170,17 +170,26 @@ fn run(input: &Value) -> CaseOut {
     for x in input["extra_queries"].as_array().unwrap() { qs.push((true, x.as_u64().unwrap() as u32)); }
     let mut ans_json = Vec::new();
     let mut ans_coq = Vec::new();
+    let mut aspa_coq = Vec::new();
     for (own, c) in &qs {
         let session = if *own { sess } else { sess.wrapping_add(1) };
         let res = hist.diff(State::from_parts(session, Serial::from(*c)));
         match res {
-            None => { ans_json.push(json!({"own": own, "serial": c, "answer": null})); ans_coq.push(format!("({},{},None)", coq_bool(*own), c)); }
+            None => { ans_json.push(json!({"own": own, "serial": c, "answer": null})); ans_coq.push(format!("({},{},None)", coq_bool(*own), c));
+                      aspa_coq.push(format!("({},{},None)", coq_bool(*own), c)); }
             Some((st2, mut diff)) => {
                 let mut acts = Vec::new();
+                let mut aspa_acts: Vec<(u32, Vec<u32>, bool)> = Vec::new();
                 while let Some((p, a)) = diff.next() {
-                    // the oracle and the model compare the route origin part of a change set; ASPA items are skipped
-                    if let rpki::rtr::payload::PayloadRef::Origin(o) = p { acts.push((r.origin(&o), a.is_withdraw())); }
+                    // the route origin part and the ASPA part of a change set are judged separately
+                    match p {
+                        rpki::rtr::payload::PayloadRef::Origin(o) => acts.push((r.origin(&o), a.is_withdraw())),
+                        rpki::rtr::payload::PayloadRef::Aspa(x) => aspa_acts.push((x.customer.into_u32(), x.providers.iter().map(|y| y.into_u32()).collect(), a.is_withdraw())),
+                        _ => { }
+                    }
                 }
+                aspa_coq.push(format!("({},{},Some {})", coq_bool(*own), c,
+                    coq_list(aspa_acts.iter(), |(k, p, w)| format!("({},{},{})", k, coq_nlist(p.iter()), coq_bool(*w)))));
                 let tag_ok = st2.session() == sess;
                 ans_json.push(json!({"own": own, "serial": c, "answer": {"tag": u32::from(st2.serial()), "session_ok": tag_ok, "actions": acts}}));
                 ans_coq.push(format!("({},{},Some ({},{}))", coq_bool(*own), c,
@@ -192,12 +201,12 @@ fn run(input: &Value) -> CaseOut {
     let obs = json!({"ready_before": ready0, "ready": ready, "serial": cur, "updates": upd_obs, "full_ok": full_ok,
         "full": full_items.len(), "answers": ans_json});
     let coq = format!(
-        "{{| c_keep := {}; c_init := {}; c_updates := {}; i_updates := {}; i_ready0 := {}; i_ready := {}; i_serial := {}; i_full := {}; i_answers := {} |}}",
+        "{{| c_keep := {}; c_init := {}; c_updates := {}; i_updates := {}; i_ready0 := {}; i_ready := {}; i_serial := {}; i_full := {}; i_answers := {}; i_aspa_answers := {} |}}",
         keep, coq_init,
         coq_list(snaps[k..].iter(), |s| coq_snapshot(s, &r)),
         coq_list(upd_obs.iter(), |(c, s, n)| format!("({},{},{})", coq_bool(*c), s, n)),
         coq_bool(ready0), coq_bool(ready), if full_ok { cur as u64 } else { 999_999_999_999 }, full_coq,
-        format!("[{}]", ans_coq.join("; ")));
+        format!("[{}]", ans_coq.join("; ")), format!("[{}]", aspa_coq.join("; ")));
     let answered = ans_json.iter().filter(|a| !a["answer"].is_null()).count();
     CaseOut { obs, coq, nontrivial: answered >= 2 }
 }
